@@ -59,6 +59,7 @@ type msgWriter struct {
 	err             error
 	multiPartWriter [4]*multipart.Writer
 	partWriter      io.Writer
+	rawPartHeaders  bool
 	writer          io.Writer
 }
 
@@ -389,7 +390,7 @@ func (mw *msgWriter) addFiles(files []*File, isAttachment bool) {
 			}
 			sort.Strings(headers)
 			for _, header := range headers {
-				mw.writeHeader(Header(header), file.Header[header]...)
+				mw.writePartHeader(Header(header), file.Header[header]...)
 			}
 			mw.writeString(SingleNewLine)
 		}
@@ -440,11 +441,11 @@ func (mw *msgWriter) writePart(part *Part, charset Charset) {
 
 	if mw.depth == 0 {
 		if part.description != "" {
-			mw.writeHeader(HeaderContentDescription,
+			mw.writePartHeader(HeaderContentDescription,
 				mw.encoder.Encode(mw.charset.String(), part.description))
 		}
-		mw.writeHeader(HeaderContentTransferEnc, contentTransferEnc)
-		mw.writeHeader(HeaderContentType, contentType)
+		mw.writePartHeader(HeaderContentTransferEnc, contentTransferEnc)
+		mw.writePartHeader(HeaderContentType, contentType)
 		mw.writeString(SingleNewLine)
 	}
 	if mw.depth > 0 {
@@ -527,6 +528,26 @@ func (mw *msgWriter) writeHeader(key Header, values ...string) int {
 
 	lines += strings.Count(bufferString, SingleNewLine) + 1
 	return lines
+}
+
+// writePartHeader writes a header of a body part or file that is not nested in a multipart.
+//
+// By default, the header is written like any other header of the message. If rawPartHeaders is set,
+// it is written in exactly the form multipart.Writer.CreatePart uses for nested parts. The S/MIME
+// signing code needs this: the entity it signs is rendered at the top level first, but emitted
+// nested in multipart/signed later, and both renderings have to be identical byte by byte.
+//
+// Parameters:
+//   - key: The Header key to be written.
+//   - values: A variadic parameter representing the values associated with the header.
+func (mw *msgWriter) writePartHeader(key Header, values ...string) {
+	if !mw.rawPartHeaders {
+		mw.writeHeader(key, values...)
+		return
+	}
+	for _, value := range values {
+		mw.writeString(fmt.Sprintf("%s: %s%s", key, value, SingleNewLine))
+	}
 }
 
 // writeBody writes an io.Reader into an io.Writer using the provided Encoding.
